@@ -58,11 +58,11 @@ Print Assumptions trunc_prefix.
    Hypotheses (the ones of C03 render_parse): WfMsg o m - any opcode but UPDATE (updates: next theorem),
    names absolute-and-not-below-the-origin or relative, TTL <= 2^31-1, distinct record-set keys and distinct
    RDATA per set, and every record set of a type/class for which MessageM.schema_of gives the reader's field
-   list: A AAAA SRV KX PX DHCID NSAP NSAP-PTR WKS NAPTR (class IN); A (class CH); NS CNAME SOA PTR MX TXT RRSIG SPF NINFO AVC RESINFO WALLET AFSDB RT
+   list: A AAAA SRV KX PX DHCID NSAP NSAP-PTR WKS NAPTR (class IN); A (class CH); NS CNAME SOA PTR MX TXT RRSIG SIG SPF NINFO AVC RESINFO WALLET AFSDB RT
    RP SSHFP TLSA SMIMEA CERT DNSKEY CDNSKEY OPENPGPKEY EUI48 EUI64 L32 L64 NID HINFO X25 NSEC3PARAM URI KEY DS DLV
    CDS ZONEMD CAA CSYNC NSEC3 DNAME NSEC BRID HHIT LP TKEY (any class; the last six with their constructors' content checks, MessageM.chk); and
    every type without a codec in dns/rdtypes (generic form).  Types with a codec outside that list
-   (AMTRELAY DSYNC GPOS HIP ISDN LOC SIG; APL HTTPS SVCB IPSECKEY in class IN) are outside
+   (AMTRELAY DSYNC GPOS HIP ISDN LOC; APL HTTPS SVCB IPSECKEY in class IN) are outside
    the theorem; they are exercised by the
    oracle of the limit sweep only. *)
 Theorem trunc_parses : forall o pad m max_size request_payload w,
